@@ -1592,7 +1592,7 @@ class Memoer(Tymee):
 
         try:
             mid, vid, gn, gc = self.pick(gram)  # parse and strip off head leaving body
-        except hioing.MemoerError as ex: # invalid gram so drop
+        except (hioing.MemoerError, KeyError, ValueError) as ex: # invalid gram so drop
             # may be bad signature when signed or unrecognized header format
             logger.error("Invalid Memoer gram from %s.\n %s.", src, ex)
             return True  # did receive data so can try again now
@@ -1660,8 +1660,8 @@ class Memoer(Tymee):
                           to fuse memo. Headers have been stripped.
             cnt (int): gram count for mid
         """
-        if len(grams) < cnt:  # must be missing one or more grams
-            return None
+        if len(grams) < cnt or any(i not in grams for i in range(cnt)):
+            return None  # must be missing one or more grams
 
         memo = bytearray()
         for i in range(cnt):  # iterate in numeric order, items are insertion ordered
@@ -1682,9 +1682,15 @@ class Memoer(Tymee):
             # if mid then grams dict at mid must not be empty
             if not mid in self.counts:  # missing first gram so skip
                 continue
-            memo = self.fuse(self.rxgs[mid], self.counts[mid])
+            dropped = False
+            try:
+                memo = self.fuse(self.rxgs[mid], self.counts[mid])
+            except ValueError as ex:  # memo body not valid utf-8 so drop memo
+                logger.error("Invalid Memoer memo from %s.\n %s.", self.sources[mid], ex)
+                memo, dropped = None, True
             if memo is not None:  # allows for empty "" memo for some src
                 self.rxms.append((memo, self.sources[mid], self.vids[mid]))
+            if memo is not None or dropped:
                 del self.rxgs[mid]
                 del self.counts[mid]
                 del self.sources[mid]
